@@ -430,5 +430,6 @@ func gen(t *rapid.T) Case {
 func TestCheck(t *testing.T) {
 	r := vlib.NewRunner(t, "C01")
 	vlib.RunCheck(r, vlib.Check[Case]{Name: "stream", N: r.Pick(1600, 30000), Gen: gen, Run: runCase, Confirm: true, RecordCurrent: true})
+	runShimTier(r)
 	r.Finish()
 }
